@@ -314,8 +314,9 @@ def h_fidelity(eng, tier, lang):
             obs.append(Ob('toggle-local|%s|%s' % (kind, lang), ok, case))
             if ok and kind == 'override':
                 w_line, wo_line = (minus[0], plus[0]) if carried_before else (plus[0], minus[0])
-                obs.append(Ob('override-marker-printed-iff-carried|%s' % lang, has_token(w_line, 'override') and
-                              not has_token(wo_line, 'override'), case))
+                # (the fields of a class share the header line: count the markers instead of asking for their absence)
+                cnt = lambda l: len(re.findall(r'(?<![A-Za-z0-9_])override(?![A-Za-z0-9_])', l))      # noqa: E731
+                obs.append(Ob('override-marker-printed-iff-carried|%s' % lang, cnt(w_line) == cnt(wo_line) + 1, case))
         if kind in ('var_type', 'final'):
             # the change starts at the declaration (continuation lines of its initialiser may change too:
             # numeric literals are cast when no type is declared)
